@@ -1,8 +1,9 @@
 import EmbitModel.Model.Sign
 /-
   C02 — PSBT signing adds only valid, authorised signatures for the right digest.
-  Decision logic proved here; signature validity, the signed set, counts and the frame condition are decided on
-  every run by the independent verifier/predicate in harness/props/c02.py (see MANIFEST level note).
+  Decision logic proved here; signature validity, the signed set, counts and the frame condition are proved in
+  Props/C02X.lean (and additionally decided on every run by the independent verifier/predicate in
+  harness/props/c02.py).
 -/
 set_option linter.unusedSimpArgs false
 namespace Embit.Props.C02
@@ -146,10 +147,8 @@ theorem dispatch_p2tr (x32 : Bytes) (hl : x32.length = 32) (ws rs : Option Bytes
     (sighashDispatch ([0x51, 0x20] ++ x32) ws rs wu).1 = Algo.taproot := by
   simp [sighashDispatch, scriptType, hl]
 
--- GOAL (not proved): added_sigs_valid / signed_set_eq / count_eq_added / frame — that every signature added verifies
---   under its key against the consensus digest, that the signed set is exactly the authorised involved keys, that
---   the count matches and nothing else changes. These need models of key involvement, BIP32 matching and of the
---   signing primitives (C07/C09); they are decided on every run by the independent Lean verifier and the harness.
+-- added_sigs_valid / signed set / count_eq_added / frame: proved in Props/C02X.lean over the executable model of the
+--   whole of `PSBT.sign_with` / `PSBTView.sign_with` (Model/SignWith.lean, Model/SignWithView.lean).
 
 /-! ### non-vacuity -/
 example : signPolicy (some 0) (some 0x83) false = none ∧ signPolicy none (some 0x83) false = some 0x83
